@@ -113,19 +113,15 @@ func (n *NameTrie[V]) Delete() {
 // DeleteIf deletes the node and its ancestors if they are empty.
 // Whether empty or not is defined by a given function.
 func (n *NameTrie[V]) DeleteIf(pred func(V) bool) {
-	if !pred(n.val) {
+	if !pred(n.val) || len(n.chd) > 0 {
+		// A node that still has children stays: its descendants hold values.
 		return
 	}
 	if n.par != nil {
-		n.chd = nil
 		delete(n.par.chd, n.key)
-		if len(n.par.chd) == 0 {
-			n.par.DeleteIf(pred)
-		}
-	} else {
-		// Root node cannot be deleted.
-		n.chd = map[string]*NameTrie[V]{}
+		n.par.DeleteIf(pred)
 	}
+	// Root node cannot be deleted.
 }
 
 // Depth returns the depth of a node in the tree.
